@@ -442,6 +442,32 @@ func c16CloseRace(tcp bool) func() {
 	}
 }
 
+// c16CloseAbandoned: the consumer reads one frame and then stops reading for good; the owner
+// closes the socket while further frames are pending. The receiver goroutine must still end.
+func c16CloseAbandoned(tcp bool) func() {
+	return func() {
+		fs := c16Frames()
+		var sock *knxnet.TunnelSocket
+		var ep *vnet.Endpoint
+		if tcp {
+			sock, ep = dialTCP()
+		} else {
+			sock, ep = dialUDP()
+		}
+		for i := 0; i < 3; i++ {
+			ep.Inject(fs[i%3], nil)
+		}
+		if v, ok := sock.Inbound().Recv2(); ok {
+			mc.Log(RxSvc{svcHex(v)})
+		}
+		mc.Sleep(mc.Duration(mc.Choose(2, mc.Free)) * ms)
+		mc.Log(Call{"SockClose", 0})
+		sock.Close()
+		mc.Sleep(5 * ms)
+		censusNote()
+	}
+}
+
 // ---- connect request endpoint ----
 
 // ConnHPAI is logged with the ConnReq bytes the real constructor put on the wire.
@@ -634,6 +660,8 @@ func init() {
 	reg("thorough", "C16-tcp-senders-8x1", "C16", 2, 2, c16Senders(true, 8, 1), false)
 	reg("both", "C16-udp-close-race", "C16", 2, 3, c16CloseRace(false), true)
 	reg("both", "C16-tcp-close-race", "C16", 2, 3, c16CloseRace(true), true)
+	reg("both", "C16-udp-close-with-abandoned-consumer", "C16", 2, 2, c16CloseAbandoned(false), true)
+	reg("both", "C16-tcp-close-with-abandoned-consumer", "C16", 2, 2, c16CloseAbandoned(true), true)
 	reg("both", "C16-connreq-endpoint", "C16", 0, -1, c16ConnReq(), false)
 	// C15's datagram clause ("the total-length field equals the length of the datagram handed to the
 	// network") under concurrent senders shares the sender scenarios
